@@ -418,6 +418,17 @@ def borrow_programs(c):
             prog = "pub fn f() { let mut v = mk(); %s %s %s }" % (create, B_STMTS[s], use)
             ctl = "pub fn f() { let mut v = mk(); %s %s }" % (create, use)
         return B_PRELUDE + prog + "\n", B_PRELUDE + ctl + "\n"
+    if k == "pair":
+        import re as _re
+        m1, m2 = c["method"], c["stmt"]
+        e1, mut1, u1 = B_METHODS[m1]
+        e2, mut2, u2 = B_METHODS[m2]
+        ren = lambda t, n: _re.sub(r"\bh\b", n, t)
+        c1 = "let %sh1 = %s;" % ("mut " if mut1 else "", e1)
+        c2 = "let %sh2 = %s;" % ("mut " if mut2 else "", e2)
+        prog = "pub fn f() { let mut v = mk(); %s %s %s %s }" % (c1, c2, ren(u1, "h1"), ren(u2, "h2"))
+        ctl = "pub fn f() { let mut v = mk(); { %s %s } { %s %s } }" % (c1, ren(u1, "h1"), c2, ren(u2, "h2"))     # one after the other
+        return B_PRELUDE + prog + "\n", B_PRELUDE + ctl + "\n"
     if k == "view_reuse":
         vm, mu = c["method"], c["stmt"]
         r = {"at": ("let r = t.at(0);", "let _ = *r;"), "get": ("let r = t.get(0).unwrap();", "let _ = *r;"),
@@ -528,6 +539,8 @@ def run_c16(tier, seed):
 def describe_borrow(c):
     if c["kind"] == "vec_loan":
         return "performs `%s` while the handle from `%s` (%s loan) is alive" % (c["stmt"], c["method"], c["loan"])
+    if c["kind"] == "pair":
+        return "keeps the handles from `%s` and `%s` alive at the same time" % (c["method"], c["stmt"])
     if c["kind"] == "view_reuse":
         return "reuses a borrow obtained by `%s` through a mutable typed view after `%s` through the same view" % (c["method"], c["stmt"])
     return "does `%s`" % c["method"]
